@@ -102,92 +102,106 @@ macro_rules
       all_goals (try guard_atoms)
       all_goals omega))
 
+/-- A Boolean guard site: `Gen.<site>` is `Gen.<site>_raw` or its negation, by the closed constant `Gen.<site>_same` (which the kernel
+evaluates: agreement with `GenRef.<site>` on the sample environments). Whichever it is, the rest is `guard_arith` on the raw expression. -/
+syntax "polar_arith" ident ident ident : tactic
+macro_rules
+  | `(tactic| polar_arith $x $same $raw) => `(tactic| (
+      unfold $x GenRef.polarised
+      first
+        | (have hpol : $same = true := by decide
+           simp only [hpol, ↓reduceIte]
+           guard_arith [$raw])
+        | (have hpol : $same = false := by decide
+           simp only [hpol, Bool.false_eq_true, ↓reduceIte]
+           guard_arith [$raw])))
+
 /-! ## `stack.index` -/
 
 /-- (`hL`: the local `L` of `index` is `r.ulen()`, whether it is declared in the `if` itself or in a statement of its own before a guard clause) -/
 theorem index_nonempty (env : Env) (hL : env.L = env.ulen) :
     Gen.index_nonempty env = decide (0 < env.ulen) := by
-  guard_arith [Gen.index_nonempty]
+  polar_arith Gen.index_nonempty Gen.index_nonempty_same Gen.index_nonempty_raw
 
 theorem index_isneg (env : Env) :
     Gen.index_isneg env = decide (env.i < 0) := by
-  guard_arith [Gen.index_isneg]
+  polar_arith Gen.index_isneg Gen.index_isneg_same Gen.index_isneg_raw
 
 theorem index_negok (env : Env) (hL : IsLen env.L) :
     Gen.index_negok env = decide (env.negidx = true ∧ -env.L ≤ env.i) := by
-  guard_arith [Gen.index_negok]
+  polar_arith Gen.index_negok Gen.index_negok_same Gen.index_negok_raw
 
 theorem index_isover (env : Env) (hL : IsLen env.L) :
     Gen.index_isover env = decide (env.L ≤ env.i) := by
-  guard_arith [Gen.index_isover]
+  polar_arith Gen.index_isover Gen.index_isover_same Gen.index_isover_raw
 
 theorem index_fwdok (env : Env) :
     Gen.index_fwdok env = decide (env.fwdidx = true) := by
-  guard_arith [Gen.index_fwdok]
+  polar_arith Gen.index_fwdok Gen.index_fwdok_same Gen.index_fwdok_raw
 
 /-! ## `stack.swap`, `stack.replace` -/
 
 theorem swap_reject (env : Env) (hu : IsLen env.ulen) (hi : InInt env.i) (hj : InInt env.j) :
     Gen.swap_reject env =
       decide (¬ ((0 ≤ env.i ∧ env.i < env.ulen) ∧ (0 ≤ env.j ∧ env.j < env.ulen))) := by
-  guard_arith [Gen.swap_reject]
+  polar_arith Gen.swap_reject Gen.swap_reject_same Gen.swap_reject_raw
 
 /-- no range is assumed for `env.i`: the heap model of C19 (`replaceSlots`) instantiates it with an
 arbitrary natural number. Rewrites that compute with `i` itself (`i+1 <= ulen`) are therefore not
 covered; comparisons of `i` with a computed bound (`i <= ulen-1`, `i > -1`) are. -/
 theorem replace_ok (env : Env) (hu : IsLen env.ulen) :
     Gen.replace_ok env = decide (0 ≤ env.i ∧ env.i < env.ulen) := by
-  guard_arith [Gen.replace_ok]
+  polar_arith Gen.replace_ok Gen.replace_ok_same Gen.replace_ok_raw
 
 /-! ## `stack.insert`, `stack.remove` -/
 
 theorem insert_full (env : Env) (hu : IsLen env.u1) (hc : IsLen env.cap) :
     Gen.insert_full env = decide (env.cap ≠ 0 ∧ env.cap ≤ env.u1 + 1) := by
-  guard_arith [Gen.insert_full]
+  polar_arith Gen.insert_full Gen.insert_full_same Gen.insert_full_raw
 
 theorem insert_append (env : Env) (hu : IsLen env.u1) (hl : InInt env.left) :
     Gen.insert_append env = decide (env.u1 ≤ env.left) := by
-  guard_arith [Gen.insert_append]
+  polar_arith Gen.insert_append Gen.insert_append_same Gen.insert_append_raw
 
 theorem insert_front (env : Env) (hl : InInt env.left) :
     Gen.insert_front env = decide (env.left ≤ 1) := by
-  guard_arith [Gen.insert_front]
+  polar_arith Gen.insert_front Gen.insert_front_same Gen.insert_front_raw
 
 theorem insert_ok_append (env : Env) (hu : IsLen env.u1) (hn : IsLen env.ulen) :
     Gen.insert_ok_append env = decide (env.ulen = env.u1 + 1) := by
-  guard_arith [Gen.insert_ok_append]
+  polar_arith Gen.insert_ok_append Gen.insert_ok_append_same Gen.insert_ok_append_raw
 
 theorem remove_ok (env : Env) (hu : IsLen env.u1) (hn : IsLen env.ulen) :
     Gen.remove_ok env = decide (env.slice_nonnil = true ∧ env.ulen = env.u1 - 1) := by
-  guard_arith [Gen.remove_ok]
+  polar_arith Gen.remove_ok Gen.remove_ok_same Gen.remove_ok_raw
 
 /-! ## `stack.transfer` -/
 
 theorem transfer_hascap (env : Env) (hc : IsLen env.dcap) :
     Gen.transfer_hascap env = decide (0 < env.dcap) := by
-  guard_arith [Gen.transfer_hascap]
+  polar_arith Gen.transfer_hascap Gen.transfer_hascap_same Gen.transfer_hascap_raw
 
 theorem transfer_nofit (env : Env) (hu : IsLen env.ulen) (hc : IsLen env.dcap) (hl : IsRawLen env.dlen) :
     Gen.transfer_nofit env = decide (env.dcap - env.dlen < env.ulen) := by
-  guard_arith [Gen.transfer_nofit]
+  polar_arith Gen.transfer_nofit Gen.transfer_nofit_same Gen.transfer_nofit_raw
 
 theorem transfer_ok (env : Env) (hd : IsLen env.dulen) (hb : IsLen env.before) (hu : IsLen env.ulen) :
     Gen.transfer_ok env = decide (env.dulen = env.before + env.ulen) := by
-  guard_arith [Gen.transfer_ok]
+  polar_arith Gen.transfer_ok Gen.transfer_ok_same Gen.transfer_ok_raw
 
 /-! ## `stack.defrag`, `stack.implode`, `stack.verifyImplode` -/
 
 theorem defrag_go (env : Env) (hs : -1 ≤ env.start ∧ env.start < 4611686018427387904) :
     Gen.defrag_go env = decide (env.start ≠ -1 ∧ env.start < env.max) := by
-  guard_arith [Gen.defrag_go]
+  polar_arith Gen.defrag_go Gen.defrag_go_same Gen.defrag_go_raw
 
 theorem defrag_trunc (env : Env) (hl : InInt env.last) :
     Gen.defrag_trunc env = decide (¬ env.err_nonnil = true ∧ 0 ≤ env.last) := by
-  guard_arith [Gen.defrag_trunc]
+  polar_arith Gen.defrag_trunc Gen.defrag_trunc_same Gen.defrag_trunc_raw
 
 theorem implode_stop (env : Env) (hs : IsLen env.start) (hc : IsLen env.ct) (hu : IsLen env.ulen) :
     Gen.implode_stop env = decide (env.max ≤ env.ct ∨ env.ulen ≤ env.start + env.ct) := by
-  guard_arith [Gen.implode_stop]
+  polar_arith Gen.implode_stop Gen.implode_stop_same Gen.implode_stop_raw
 
 theorem implode_last (env : Env) (hd : -1 ≤ env.len_data ∧ env.len_data < 4611686018427387904) (hi : IsLen env.i)
     (ht : IsRawLen env.len_tpat) :
@@ -198,7 +212,7 @@ theorem implode_last (env : Env) (hd : -1 ≤ env.len_data ∧ env.len_data < 46
 
 theorem cond_op_bogus (env : Env) :
     Gen.cond_op_bogus env = decide (¬ (1 ≤ env.assert ∧ env.assert ≤ 6)) := by
-  guard_arith [Gen.cond_op_bogus]
+  polar_arith Gen.cond_op_bogus Gen.cond_op_bogus_same Gen.cond_op_bogus_raw
 
 /-! ## whole functions (`Gen/Funcs.lean`) -/
 
